@@ -171,7 +171,15 @@ func (e *expander) stmt(s ast.Stmt) ast.Stmt {
 		cp := *x
 		cp.Body = e.block(x.Body)
 		if x.Else != nil {
-			cp.Else = e.stmt(x.Else)
+			if ei, ok := x.Else.(*ast.IfStmt); ok {
+				// `else if h(…)`: the helpers of the else-if's own header are put back inside the else branch
+				cp.Else = &ast.BlockStmt{Lbrace: ei.Pos(), List: e.stmts([]ast.Stmt{ei}), Rbrace: ei.End()}
+				if b := cp.Else.(*ast.BlockStmt); len(b.List) == 1 {
+					cp.Else = b.List[0]
+				}
+			} else {
+				cp.Else = e.stmt(x.Else)
+			}
 		}
 		return &cp
 	case *ast.ForStmt:
